@@ -179,7 +179,6 @@ Proof.
   assert (Hh : fhdr_marshal (mkFHDR [d0; d1; d2; d3] (mkFCtrl a b c d e n0) fcn fo)
                = Ok (d3 :: d2 :: d1 :: d0 :: cb :: f0 :: f1 :: ob)).
   { unfold fhdr_marshal. cbn [fopts fc devaddr fcnt adr adrackreq ack fpending classb]. rewrite Hob. cbn [bind]. cbv zeta.
-    rewrite (N.mod_small (N.of_nat (length ob)) 256) by lia.
     replace (15 <? N.of_nat (length ob)) with false by lia. rewrite Hcb. reflexivity. }
   assert (Bh : Forall byte (d3 :: d2 :: d1 :: d0 :: cb :: f0 :: f1 :: ob)).
   { inversion Bda as [|? ? B0 Bda1]; subst. inversion Bda1 as [|? ? B1 Bda2]; subst.
@@ -627,14 +626,14 @@ Local Transparent skipn firstn.
 Lemma ja_unmarshal_12 j0 j1 j2 n2 n1 n0 a3 a2 a1 a0 dl rxd :
   joinaccept_unmarshal [j0; j1; j2; n2; n1; n0; a3; a2; a1; a0; dl; rxd] =
   let '(o, r2, r1) := dec_dlsettings dl in
-  Ok (PLJoinAccept (le_val [j0; j1; j2]) [n0; n1; n2] [a0; a1; a2; a3] o r2 r1 rxd None).
+  Ok (PLJoinAccept (le_val [j0; j1; j2]) [n0; n1; n2] [a0; a1; a2; a3] o r2 r1 (N.land rxd 15) None).
 Proof. unfold joinaccept_unmarshal. cbn [length Nat.eqb negb andb nth skipn firstn rev app bind]. reflexivity. Qed.
 
 Lemma ja_unmarshal_28 j0 j1 j2 n2 n1 n0 a3 a2 a1 a0 dl rxd cf : length cf = 16%nat ->
   joinaccept_unmarshal (j0 :: j1 :: j2 :: n2 :: n1 :: n0 :: a3 :: a2 :: a1 :: a0 :: dl :: rxd :: cf) =
   let '(o, r2, r1) := dec_dlsettings dl in
   do c <- cflist_unmarshal cf;
-  Ok (PLJoinAccept (le_val [j0; j1; j2]) [n0; n1; n2] [a0; a1; a2; a3] o r2 r1 rxd (Some c)).
+  Ok (PLJoinAccept (le_val [j0; j1; j2]) [n0; n1; n2] [a0; a1; a2; a3] o r2 r1 (N.land rxd 15) (Some c)).
 Proof.
   intros L. unfold joinaccept_unmarshal. cbn [length]. rewrite L.
   cbn [Nat.eqb negb andb nth skipn firstn rev app]. destruct (dec_dlsettings dl) as [[o r2] r1].
@@ -642,6 +641,9 @@ Proof.
 Qed.
 
 Local Opaque skipn firstn.
+
+Lemma land15_small x : x < 16 -> N.land x 15 = x.
+Proof. intros H. change 15 with (N.ones 4). rewrite N.land_ones. apply N.mod_small. exact H. Qed.
 
 Lemma le3_val x : x < 16777216 -> le_val [x mod 256; (x / 256) mod 256; (x / 256 / 256) mod 256] = x.
 Proof. intros H. apply (le_bytes_small 3 x). change (256 ^ N.of_nat 3) with 16777216. exact H. Qed.
@@ -675,6 +677,6 @@ Proof.
     destruct cfl as [l|].
     + rewrite ja_unmarshal_28 by exact Lcf. rewrite Hdec.
       destruct (cflist_codec l Hcf) as (cf' & E' & Hu). rewrite Ecf in E'. injection E' as <-.
-      rewrite Hu. cbn [bind wire_payload]. now rewrite le3_val.
-    + subst cf. rewrite ja_unmarshal_12, Hdec. cbn [wire_payload]. now rewrite le3_val.
+      rewrite Hu. cbn [bind wire_payload]. now rewrite le3_val, land15_small.
+    + subst cf. rewrite ja_unmarshal_12, Hdec. cbn [wire_payload]. now rewrite le3_val, land15_small.
 Qed.
